@@ -32,6 +32,16 @@ source node's token has been computed and cached (by a random one of ``hash(a)``
 (control).  Same oracle; each pair is also judged inside freshly built enclosing ``Task`` / ``List`` nodes.
 The source may be a keyed Task, a bare List/Tuple/Set/Dict holding nested Tasks, an Alias or a DataNode.
 
+Third family ("samecode" cases): functions that share ONE code object and differ only in what is bound around it —
+``__defaults__`` (the ``[lambda x, k=k: .. for k in ..]`` idiom), ``__kwdefaults__``, both, a function attribute the body
+reads (``me.tag``), the value of a global the body reads (``types.FunctionType(code, other_globals)``), closure cells,
+plus callable instances / bound methods of one class with different state.  Every family holds 3-5 functions over
+near-identical bound values (``1``/``True``/``1.0``/``"1"``..) and one exact twin (same code, equal bindings: the
+guaranteed-positive pair, counted, not demanded).  Each function is put at the same place of 3-4 node shapes: the
+function of a keyed Task, of a ``Task(None, ..)`` nested in a List / Tuple / Dict argument, a keyword value, a positional
+callable argument, an element of a List / value of a Dict argument (as positional and as keyword argument), wrapped in
+``functools.partial`` or a DataNode, and inside bare List / Dict nodes.  All pairs of one shape get the same oracle.
+
 Label: pairs whose terms are equal up to the order of the elements inside List/Tuple
 containers and of the flattened key/value sequence of Dict containers get the single label
 of that mechanism; every other alarm is labelled by the derivation that produced the pair.
@@ -45,6 +55,10 @@ Calibration (unchanged tree)
   made for Task / Alias / DataNode nodes only; the statement does not speak about ``copy``.
 * ``substitute`` is documented for values that are keys or GraphNodes: ``Alias.substitute({'x': TaskRef('y')})`` returns the
   bare TaskRef (not a node, not callable); TaskRef values are not generated.
+* same-code functions return the TYPE of the bound value next to the value (``1 == True`` in python, yet two functions
+  bound to ``1`` and ``True`` are told apart by their tokens: with a type-blind digest the pair would look like a
+  "different identity, equal values" pair and add nothing; with it the monitor sees one more differing pair).  A bound
+  method / callable instance pair with equal state is a twin like any other.
 * Nodes are compared with ``==`` only against nodes: ``GraphNode.__eq__`` is type-strict, Alias/DataNode
   are unhashable (``__eq__`` without ``__hash__``); hash is read only where it exists.
 """
@@ -60,7 +74,9 @@ RULE = ("cases = (seed) -> one random base node term (call / keyword call / bare
         "agree, evaluated on 3 random value assignments; non-trivial = the base term has a container or a reference and at "
         "least one derived pair was judged; distinct = distinct base terms; 'method' cases = (seed, order) -> one source node, its "
         "token forced (or not) by one of 6 ways, 8-17 nodes derived by substitute/copy/pickle/fuse, each pair judged bare and "
-        "inside an enclosing Task and List")
+        "inside an enclosing Task and List; 'samecode' cases = (seed) -> one family of 3-5 functions sharing one code object "
+        "(defaults / kwdefaults / both / function attribute / globals binding / closure / callable instance / bound method) "
+        "placed in 3-4 of 14 node shapes, all pairs of a shape judged")
 ASSUMPTIONS = ["the tagged functions f/g/h digest their arguments order- and type-sensitively, so different arguments give different results",
                "python == on plain values (tuples of strings, lists, dicts, sets) is the equality of results"]
 BUDGET = {"quick": 75, "thorough": 600}
@@ -68,7 +84,7 @@ FLOORS = {
     # measured on the current tree (quick, 5 seeds): 3800 cases, ~3250 distinct non-trivial; constructor family ~22.7k pairs,
     # ~10k judged, ~600 derived pairs judged; method family 1600 cases, ~22.8k pairs (+ ~44.7k enclosed), ~32k judged,
     # ~35k pairs with different values (the monitor had a chance), ~890 source nodes with a cached token, ~430 fuse pairs
-    "quick": {"evaluations": 1800, "distinct_nontrivial": 1500, "max_skipped_fraction": 0.2,
+    "quick": {"evaluations": 2200, "distinct_nontrivial": 1800, "max_skipped_fraction": 0.2,
               "counters": {"pairs": 10000, "identical_pairs": 4000, "identical_pairs_equal_and_same_token": 4000,
                            "pairs_judged": 4500, "pairs_judged_equal_values": 4000, "derived_pairs_judged": 250,
                            "pairs_differing_by_container_order_or_pairing_only": 1000, "pairs_different_identity": 4500,
@@ -77,8 +93,16 @@ FLOORS = {
                            "method_enclosed_pairs": 20000, "method_pairs_judged": 14000,
                            "method_pairs_with_different_values_tokenized-first": 10000,
                            "method_pairs_with_different_values_derived-first": 5000,
-                           "source_nodes_with_cached_token": 400, "method_fuse_pairs": 190}},
-    "thorough": {"evaluations": 28000, "distinct_nontrivial": 22000, "max_skipped_fraction": 0.2,
+                           "source_nodes_with_cached_token": 400, "method_fuse_pairs": 190,
+                           # samecode family (700 cases): ~13.3k pairs, ~11k with different values (~8k of them in the families
+                           # without closure cells / instance state), ~2.2k twin pairs judged (all of them equal)
+                           "samecode_pairs": 6000, "samecode_pairs_with_different_values": 5000,
+                           "samecode_twin_pairs_judged": 1000, "samecode_pairs_no_closure_different_values": 3500,
+                           "samecode_differing_pairs:defaults": 850, "samecode_differing_pairs:kwdefaults": 950,
+                           "samecode_differing_pairs:defaults+kwdefaults": 700, "samecode_differing_pairs:function-attribute": 350,
+                           "samecode_differing_pairs:globals-binding": 450, "samecode_differing_pairs:closure": 440,
+                           "samecode_differing_pairs:callable-instance": 450, "samecode_differing_pairs:bound-method": 400}},
+    "thorough": {"evaluations": 33000, "distinct_nontrivial": 26000, "max_skipped_fraction": 0.2,
                  "counters": {"pairs": 180000, "identical_pairs": 75000, "identical_pairs_equal_and_same_token": 75000,
                               "pairs_judged": 80000, "pairs_judged_equal_values": 75000, "derived_pairs_judged": 4500,
                               "pairs_differing_by_container_order_or_pairing_only": 18000,
@@ -89,7 +113,13 @@ FLOORS = {
                               "method_pairs_judged": 175000,
                               "method_pairs_with_different_values_tokenized-first": 130000,
                               "method_pairs_with_different_values_derived-first": 58000,
-                              "source_nodes_with_cached_token": 5000, "method_fuse_pairs": 2500}},
+                              "source_nodes_with_cached_token": 5000, "method_fuse_pairs": 2500,
+                              "samecode_pairs": 75000, "samecode_pairs_with_different_values": 62000,
+                              "samecode_twin_pairs_judged": 12500, "samecode_pairs_no_closure_different_values": 44000,
+                              "samecode_differing_pairs:defaults": 10500, "samecode_differing_pairs:kwdefaults": 11500,
+                              "samecode_differing_pairs:defaults+kwdefaults": 8500, "samecode_differing_pairs:function-attribute": 4300,
+                              "samecode_differing_pairs:globals-binding": 5500, "samecode_differing_pairs:closure": 5400,
+                              "samecode_differing_pairs:callable-instance": 5500, "samecode_differing_pairs:bound-method": 5000}},
 }
 EXHAUSTIVE_SPACE = None
 LEVEL_NOTE = "trusts python equality of plain values and the harness term evaluator is not even needed: both sides are evaluated by dask"
@@ -112,6 +142,8 @@ QUICK_CASES = 2200
 THOROUGH_CASES = 40000
 QUICK_METHOD_CASES = 1600
 THOROUGH_METHOD_CASES = 20000
+QUICK_SAMECODE_CASES = 700
+THOROUGH_SAMECODE_CASES = 9000
 
 
 def cases(tier, seed):
@@ -123,6 +155,10 @@ def cases(tier, seed):
     for _ in range(QUICK_METHOD_CASES if tier == "quick" else THOROUGH_METHOD_CASES):
         yield {"seed": rng.randrange(2 ** 31), "kind": "method",
                "order": "tokenized-first" if rng.random() < 0.7 else "derived-first"}
+    # functions sharing one code object (same source location, other defaults / kwdefaults / attributes / globals)
+    rng = random.Random(seed * 6151 + 3)
+    for _ in range(QUICK_SAMECODE_CASES if tier == "quick" else THOROUGH_SAMECODE_CASES):
+        yield {"seed": rng.randrange(2 ** 31), "kind": "samecode"}
 
 
 # ---------------------------------------------------------------------------------------------
@@ -577,6 +613,8 @@ def run_case(case, ctx):
 
     if case.get("kind") == "method":
         return _run_method_case(case, ctx)
+    if case.get("kind") == "samecode":
+        return _run_samecode_case(case, ctx)
     rng = random.Random(case["seed"])
     g = _G(rng)
     base = g.base()
@@ -932,3 +970,233 @@ def _run_method_case(case, ctx):
     ctx.nontrivial = bool(judged and L.refs_of(base))
     ctx.sample = {"base": _canon(base, False)[:200], "node": repr(a)[:120], "order": order, "token_forced_by": forced,
                   "derived": len(built), "judged": judged}
+
+
+# ---------------------------------------------------------------------------------------------
+# functions that share one code object ("samecode" cases)
+
+BOUND_VALUES = [1, 2, True, 1.0, "1", "a", "b", None, 0, False, (1, 2), (1, 3), 2.5, b"a", 10, -1]
+
+
+def _kind(v):
+    return type(v).__name__
+
+
+def _sc_global_template(x):
+    return ("glob", x, _kind(BOUND), BOUND)          # noqa: F821 - BOUND lives in the globals given to FunctionType
+
+
+def _sc_attr_template(x):
+    return ("attr", x, _kind(me.tag), me.tag)        # noqa: F821 - `me` is the function itself, in its own globals
+
+
+class _Scaler:
+    """callable instances / bound methods: one class (one code object per method), state in the instance"""
+
+    def __init__(self, k):
+        self.k = k
+
+    def __call__(self, x):
+        return ("inst", x, _kind(self.k), self.k)
+
+    def meth(self, x):
+        return ("meth", x, _kind(self.k), self.k)
+
+
+def _sc_make(family, vals):
+    """functions of one family: the same code object, one bound value each"""
+    import types
+
+    if family == "defaults":
+        return [lambda x, k=v: ("dflt", x, _kind(k), k) for v in vals]
+    if family == "kwdefaults":
+        def mk(v):
+            def pick(x, *, k=v):
+                return ("kwd", x, _kind(k), k)
+            return pick
+        return [mk(v) for v in vals]
+    if family == "defaults+kwdefaults":
+        # binding i = (vals[i], vals[-1-i]): pairs may differ in the positional default only, the keyword-only default
+        # only, or in both (values swapped between the two)
+        def mk2(d, v):
+            def both(x, d=d, *, k=v):
+                return ("both", x, _kind(d), d, _kind(k), k)
+            return both
+        return [mk2(vals[i], vals[-1 - i]) for i in range(len(vals))]
+    if family == "globals-binding":
+        out = []
+        for v in vals:
+            out.append(types.FunctionType(_sc_global_template.__code__, {"BOUND": v, "_kind": _kind, "__builtins__": __builtins__},
+                                          "_sc_global_template"))
+        return out
+    if family == "function-attribute":
+        out = []
+        for v in vals:
+            g = {"_kind": _kind, "__builtins__": __builtins__}
+            f = types.FunctionType(_sc_attr_template.__code__, g, "_sc_attr_template")
+            g["me"] = f
+            f.tag = v
+            out.append(f)
+        return out
+    if family == "closure":
+        def mk3(v):
+            def inner(x):
+                return ("clos", x, _kind(v), v)
+            return inner
+        return [mk3(v) for v in vals]
+    if family == "callable-instance":
+        return [_Scaler(v) for v in vals]
+    if family == "bound-method":
+        return [_Scaler(v).meth for v in vals]
+    raise AssertionError(family)
+
+
+SAMECODE_FAMILIES = ("defaults", "defaults", "kwdefaults", "kwdefaults", "defaults+kwdefaults", "globals-binding", "function-attribute",
+                     "closure", "callable-instance", "bound-method")
+# families without closure cells and without instance state: plain functions whose whole difference sits next to the code
+SAMECODE_PLAIN = ("defaults", "kwdefaults", "defaults+kwdefaults", "globals-binding", "function-attribute")
+
+
+def _sc_apply(fn, x):
+    return ("apply", fn(x))
+
+
+def _sc_apply_kw(x, fn=None):
+    return ("applykw", fn(x))
+
+
+def _sc_apply_all(fns, x):
+    return ("all", [fn(x) for fn in fns])
+
+
+def _sc_apply_all_kw(x, fns=()):
+    return ("allkw", [fn(x) for fn in fns])
+
+
+def _sc_apply_map(fns, x):
+    return ("map", sorted((k, fn(x)) for k, fn in fns.items()))
+
+
+def _sc_apply_map_kw(x, fns=None):
+    return ("mapkw", sorted((k, fn(x)) for k, fn in fns.items()))
+
+
+def _sc_collect(*a, **k):
+    return ("collect", a, sorted(k.items()))
+
+
+def _sc_shapes():
+    """name -> builder(key, fn, other_fn, ref): a node that holds `fn` at one place; everything else is fixed"""
+    import functools
+
+    from dask._task_spec import DataNode, Dict, List, Task, TaskRef, Tuple
+
+    return {
+        "task-function": lambda key, fn, o, r: Task(key, fn, TaskRef(r)),
+        "nested-task-in-List": lambda key, fn, o, r: Task(key, _sc_collect, List(Task(None, fn, TaskRef(r)), 1)),
+        "nested-task-in-Tuple": lambda key, fn, o, r: Task(key, _sc_collect, Tuple(1, Task(None, fn, TaskRef(r)))),
+        "nested-task-in-Dict": lambda key, fn, o, r: Task(key, _sc_collect, Dict({"a": Task(None, fn, TaskRef(r)), "b": 2})),
+        "nested-task-in-List-in-kwarg": lambda key, fn, o, r: Task(key, _sc_collect, 0, kw=List(Task(None, fn, TaskRef(r)), TaskRef(r))),
+        "nested-task-two-levels": lambda key, fn, o, r: Task(key, _sc_collect, List(Dict({"a": List(Task(None, fn, TaskRef(r)))}), 1)),
+        "positional-argument": lambda key, fn, o, r: Task(key, _sc_apply, fn, TaskRef(r)),
+        "kwarg-value": lambda key, fn, o, r: Task(key, _sc_apply_kw, TaskRef(r), fn=fn),
+        "List-argument-element": lambda key, fn, o, r: Task(key, _sc_apply_all, List(o, fn), TaskRef(r)),
+        "List-kwarg-element": lambda key, fn, o, r: Task(key, _sc_apply_all_kw, TaskRef(r), fns=List(fn, o)),
+        "Dict-argument-value": lambda key, fn, o, r: Task(key, _sc_apply_map, Dict({"p": fn, "q": o}), TaskRef(r)),
+        "Dict-kwarg-value": lambda key, fn, o, r: Task(key, _sc_apply_map_kw, TaskRef(r), fns=Dict({"p": o, "q": fn})),
+        "partial": lambda key, fn, o, r: Task(key, functools.partial(_sc_apply, fn), TaskRef(r)),
+        "DataNode-argument": lambda key, fn, o, r: Task(key, _sc_apply, DataNode(None, fn), TaskRef(r)),
+        "bare-List": lambda key, fn, o, r: List(Task(None, fn, TaskRef(r)), 2),
+        "bare-Dict": lambda key, fn, o, r: Dict({"a": Task(None, fn, TaskRef(r)), "b": TaskRef(r)}),
+    }
+
+
+def _run_samecode_case(case, ctx):
+    import itertools
+
+    from dask.tokenize import tokenize
+    from vf.gen import c08_legacy as L
+
+    rng = random.Random(case["seed"])
+    family = rng.choice(SAMECODE_FAMILIES)
+    n = rng.choice((3, 3, 4, 5))
+    vals = rng.sample(BOUND_VALUES, n - 1)
+    twin_of = rng.randrange(len(vals))
+    vals.insert(rng.randrange(len(vals) + 1), vals[twin_of])     # one exact twin (equal binding, same code)
+    shapes = _sc_shapes()
+    chosen = rng.sample(sorted(shapes), rng.choice((3, 4)))
+    same_key = rng.random() < 0.5
+    ref = rng.choice(NAMES)
+    assigns = _assignments(case["seed"] ^ 0x1234)
+    ctx.sig = ("samecode", family, [repr(v) for v in vals], chosen, same_key, repr(ref))
+    ctx.op("samecode-family:" + family)
+    try:
+        fns = _sc_make(family, vals)
+        other = _sc_make(family, [vals[0]])[0]
+    except Exception as e:  # noqa: BLE001 - python refuses (never seen)
+        ctx.reject("python refuses the function family: %r" % (e,))
+        return
+    if family not in ("callable-instance", "bound-method"):
+        codes = {id(getattr(f, "__code__", None)) for f in fns}
+        if len(codes) != 1:
+            raise AssertionError("harness: family %s does not share one code object" % family)
+    if family == "defaults+kwdefaults":
+        binds = [(_kind(vals[i]), vals[i], _kind(vals[-1 - i]), vals[-1 - i]) for i in range(len(vals))]
+    else:
+        binds = [(_kind(v), v) for v in vals]
+    judged = differing = 0
+    for shape in chosen:
+        ctx.op("samecode-shape:" + shape)
+        nodes = []
+        try:
+            for i, fn in enumerate(fns):
+                nodes.append(shapes[shape]("node" if same_key else ("node", i), fn, other, ref))
+            values = [_evaluate(nd, assigns) for nd in nodes]
+        except Exception as e:  # noqa: BLE001
+            ctx.exception(e, prefix="samecode-build:" + shape)
+            continue
+        order = list(itertools.combinations(range(len(nodes)), 2))
+        rng.shuffle(order)               # which node of a pair is tokenized first varies
+        for i, j in order:
+            if rng.random() < 0.5:
+                i, j = j, i
+            a, b = nodes[i], nodes[j]
+            ctx.count("samecode_pairs")
+            twin = binds[i] == binds[j]
+            try:
+                eq = bool(a == b) or bool(b == a)
+                teq = tokenize(a) == tokenize(b)
+            except Exception as e:  # noqa: BLE001
+                ctx.exception(e, prefix="samecode-compare:" + shape)
+                continue
+            try:
+                heq = hash(a) == hash(b)
+            except TypeError:
+                heq = None
+            bad = [q for q in range(len(assigns)) if not L.equalish(values[i][q], values[j][q])]
+            if bad:
+                differing += 1
+                ctx.count("samecode_pairs_with_different_values")
+                ctx.count("samecode_differing_pairs:" + family)
+                if family in SAMECODE_PLAIN:
+                    ctx.count("samecode_pairs_no_closure_different_values")
+            if not (eq or teq):
+                if twin:
+                    ctx.count("samecode_twin_pairs_different_identity")
+                continue
+            judged += 1
+            ctx.count("samecode_pairs_judged")
+            if twin:
+                ctx.count("samecode_twin_pairs_judged")
+            if not bad:
+                continue
+            q = bad[0]
+            how = "+".join(x for x, y in (("==", eq), ("same-token", teq), ("same-hash", bool(heq))) if y)
+            ctx.violation("same-code-functions:%s:equal-or-same-token-but-different-values" % family,
+                          "%s: two nodes whose functions share one code object and differ in %s (bound %r vs %r) are %s but "
+                          "a(values)=%r, b(values)=%r; a=%r b=%r"
+                          % (shape, family, binds[i][1::2], binds[j][1::2], how, values[i][q], values[j][q], a, b),
+                          shape=shape, family=family, bound=[repr(binds[i]), repr(binds[j])])
+    ctx.nontrivial = bool(differing)
+    ctx.sample = {"family": family, "bound": [repr(v) for v in vals], "shapes": chosen, "judged": judged,
+                  "pairs_with_different_values": differing}
